@@ -140,33 +140,44 @@ def _uartrx(spec):
 
 class UartHint:
     """speculation hint (GraphLoop._speculate): mirrors the environments of Uart.tla so that the
-    harness follows a frame to its end without asking TLC after every cycle.  Accelerator only."""
+    harness follows a frame to its end without asking TLC after every cycle.  Accelerator only:
+    verdicts never depend on it (a wrong hint costs extra TLC rounds).
+    ctx (tx) = byte on offer or -1;  ctx (rx) = (frame or None, hi) with frame = (levels, e, stop):
+    levels = the line level of every cycle of the frame."""
+    def __init__(self):
+        self._lv = {}
+
     def init(self, cfg):
         return -1 if cfg["kind"] == "tx" else (None, -2)
 
-    @staticmethod
-    def _tb(cfg, phi, k):
-        return (k * cfg["tn"] - phi + cfg["td"] - 1) // cfg["td"]
-
-    @staticmethod
-    def _bit(byte, stop, k):
-        return 0 if k == 0 else stop if k == 9 else (byte >> (k - 1)) & 1
-
-    def _rx_expected(self, cfg, ctx, iv):
-        t, hi = ctx
-        if t is None:
-            return iv == (1, 0) or (iv[0] == 0 and iv[1] > 0 and hi >= 1)
-        byte, stop, phi, e = t
-        if e + 1 < self._tb(cfg, phi, 10):
-            k = max(k for k in range(10) if self._tb(cfg, phi, k) <= e + 1)
-            return iv == (self._bit(byte, stop, k), 0)
-        return iv == (1, 0) or (stop == 1 and iv[0] == 0 and iv[1] > 0)
+    def _levels(self, cfg, byte, stop, phi):
+        key = (cfg["tn"], cfg["td"], byte, stop, phi)
+        lv = self._lv.get(key)
+        if lv is None:
+            tb = [(k * cfg["tn"] - phi + cfg["td"] - 1) // cfg["td"] for k in range(11)]
+            lv = []
+            for k in range(10):
+                bit = 0 if k == 0 else stop if k == 9 else (byte >> (k - 1)) & 1
+                lv += [bit] * (tb[k + 1] - tb[k])
+            lv = self._lv[key] = tuple(lv)
+        return lv
 
     def allowed(self, cfg, ctx, iv):
-        iv = tuple(iv)
         if cfg["kind"] == "tx":
-            return ctx < 0 or iv == (1, ctx)
-        return self._rx_expected(cfg, ctx, iv)
+            return ctx < 0 or (iv[0] == 1 and iv[1] == ctx)
+        t, hi = ctx
+        if iv[1] > 0:                       # a frame start
+            if iv[0] != 0:
+                return False
+            if t is None:
+                return hi >= 1
+            return t[2] == 1 and t[1] + 1 >= len(t[0])
+        if t is None:
+            return iv[0] == 1
+        lv, e, stop = t
+        if e + 1 < len(lv):
+            return iv[0] == lv[e + 1]
+        return iv[0] == 1
 
     def next(self, cfg, ctx, iv, o):
         if cfg["kind"] == "tx":
@@ -176,17 +187,222 @@ class UartHint:
         if iv[1] > 0:
             g = iv[1] - 1
             nb = len(cfg["bytes"])
-            return ((cfg["bytes"][g % nb], (g // nb) % 2, cfg["phis"][g // (2 * nb)], 0), nhi)
+            stop = (g // nb) % 2
+            return ((self._levels(cfg, cfg["bytes"][g % nb], stop, cfg["phis"][g // (2 * nb)]), 0, stop), nhi)
         if t is None:
             return (None, nhi)
-        byte, stop, phi, e = t
-        if e + 1 < self._tb(cfg, phi, 10):
-            return ((byte, stop, phi, e + 1), nhi)
+        lv, e, stop = t
+        if e + 1 < len(lv):
+            return ((lv, e + 1, stop), nhi)
         return (None, nhi)
 
 
+# ------------------------------------------------------------------------------------- SPI
+def _spim(spec):
+    from litex.soc.cores.spi.spi_master import SPIMaster
+    top = Module()
+    spi = SPIMaster(None, data_width=spec["dw"], sys_clk_freq=spec["div"], spi_clk_freq=1, with_csr=False,
+                    mode=spec["mode"])
+    top.submodules.spi = spi
+    start, length, mosi = Signal(), Signal(8), Signal(spec["dw"])
+    cs, cs_mode, miso = Signal(), Signal(), Signal()
+    top.comb += [spi.start.eq(start), spi.length.eq(length), spi.mosi.eq(mosi), spi.cs.eq(cs),
+                 spi.cs_mode.eq(cs_mode), spi.loopback.eq(spec["loop"]), spi.pads.miso.eq(miso)]
+    outs = [spi.done, spi.irq, spi.miso, spi.pads.clk, spi.pads.cs_n, spi.pads.mosi]
+    return top, [start, length, mosi, cs, cs_mode, miso], outs
+
+
+def _spis(spec):
+    from litex.soc.cores.spi.spi_slave import SPISlave
+    top = Module()
+    spi = SPISlave(None, data_width=spec["dw"])
+    top.submodules.spi = spi
+    clk, cs_n, mosi, txw, ghost = Signal(), Signal(reset=1), Signal(), Signal(spec["dw"]), Signal(16)
+    top.comb += [spi.pads.clk.eq(clk), spi.pads.cs_n.eq(cs_n), spi.pads.mosi.eq(mosi), spi.miso.eq(txw),
+                 spi.loopback.eq(0)]
+    outs = [spi.start, spi.length, spi.done, spi.irq, spi.mosi, spi.pads.miso]
+    return top, [clk, cs_n, mosi, txw, ghost], outs
+
+
+class SpiSlaveHint:
+    """speculation hint for the SPI slave: mirrors the master of SpiSlave.tla (a transfer is a fixed
+    waveform once its code is chosen).  ctx = (waveform or None, position, idle count, report owed)"""
+    def __init__(self):
+        self._wf = {}
+
+    def init(self, cfg):
+        return (None, 0, 0, 0)
+
+    def _wave(self, cfg, g, txw):
+        key = (cfg["h"], cfg["dw"], tuple(cfg["lens"]), tuple(cfg["words"]), g, txw)
+        wf = self._wf.get(key)
+        if wf is None:
+            nl = len(cfg["lens"])
+            L = cfg["lens"][(g - 1) % nl]
+            X = cfg["words"][(g - 1) // nl]
+            h, dw = cfg["h"], cfg["dw"]
+            wf = []
+            for p in range(h + 2 * h * L):
+                if p < h:
+                    clk, bit = 0, 1
+                else:
+                    j = (p - h) // h
+                    clk = 1 if j % 2 == 0 else 0
+                    bit = min((p - h) // (2 * h) + 1 + (1 if j % 2 == 1 else 0), L)
+                wf.append((clk, 0, (X >> (dw - bit)) & 1 if bit <= dw else 0, txw, g if p == 0 else 0))
+            wf = self._wf[key] = tuple(wf)
+        return wf
+
+    def allowed(self, cfg, ctx, iv):
+        wf, p, idle, owed = ctx
+        iv = tuple(iv)
+        if wf is None:
+            if iv[4] == 0:
+                return iv == (0, 1, 0, 0, 0)
+            return idle >= cfg["gap"] and not owed and iv[0] == 0 and iv[1] == 0
+        if p + 1 < len(wf):
+            return iv == wf[p + 1]
+        return iv == (0, 1, 0, 0, 0)
+
+    def next(self, cfg, ctx, iv, o):
+        wf, p, idle, owed = ctx
+        nidle = min(idle + 1, cfg["gap"]) if iv[1] == 1 else 0
+        if iv[4] > 0:
+            return (self._wave(cfg, iv[4], iv[3]), 0, nidle, 0)
+        if wf is None:
+            return (None, 0, nidle, 0 if (o[3] == 1 or owed == 0 or owed > 4) else owed + 1)
+        if p + 1 < len(wf):
+            return (wf, p + 1, nidle, 0)
+        return (None, 0, nidle, 0 if o[3] == 1 else 1)
+
+
+class SpiHint:
+    """speculation hint for the SPI master: software holds its command during a transfer and the
+    chip-select setting while busy (SpiMaster.tla Inputs); a miso level that breaks the slave rule
+    (Consistent) leads to the dead context, from which nothing is speculated."""
+    DEAD = "dead"
+
+    def init(self, cfg):
+        return (0, 0, 0, 1, 0, 0, 1, 0)     # busy, len, word, cs, cs_mode, pclk, pcsn, pmiso
+
+    def allowed(self, cfg, ctx, iv):
+        if ctx == self.DEAD:
+            return False
+        busy, hl, hw, cs, csm = ctx[:5]
+        if not busy:
+            if iv[0] == 0:
+                return iv[1] == 0 and iv[2] == 0
+            return iv[3] == cs and iv[4] == csm
+        if iv[3] != cs or iv[4] != csm or iv[2] != hw:
+            return False
+        if iv[0] == 0:
+            return iv[1] == hl
+        return cfg["overlap"] == 2 or (cfg["overlap"] == 1 and iv[1] == hl)
+
+    def next(self, cfg, ctx, iv, o):
+        busy, hl, hw, cs, csm, pclk, pcsn, pmiso = ctx
+        clk, csn, miso = o[3], o[4], iv[5]
+        if csn == 1:
+            if miso != cfg["idle"]:
+                return self.DEAD
+        elif miso != pmiso and not ((clk == 0 and pclk == 1) or pcsn == 1):
+            return self.DEAD
+        pins = (clk, csn, miso)
+        if not busy:
+            if iv[0] == 1:
+                return (1, iv[1], iv[2], cs, csm) + pins
+            return (0, 0, 0, iv[3], iv[4]) + pins
+        if o[1] == 1:
+            return (0, 0, 0, cs, csm) + pins
+        return (1, iv[1] if iv[0] == 1 else hl, hw, cs, csm) + pins
+
+
+def _i2c(spec):
+    """I2CMaster with its Tristate specials replaced by an open-drain bus model: the master pulls a
+    line low through oe (o is constant 0), the slave pulls SDA low through `sl`, pull-ups otherwise.
+    Returns the fragment (the stepper elaborates fragments as well as modules)."""
+    from litex.soc.cores.i2c import I2CMaster
+    from migen.fhdl.specials import Tristate
+
+    class _Pads:
+        def __init__(self):
+            self.scl = Signal(name="pad_scl")
+            self.sda = Signal(name="pad_sda")
+    top = Module()
+    dut = I2CMaster(_Pads())
+    top.submodules.dut = dut
+    # clock generator reload value as if software had written the config register
+    dut.i2c.cg.load.reset = Constant(spec["load"], 20)
+    req, data, sl, ghost = Signal(), Signal(13), Signal(reset=1), Signal(8)
+    bus = dut.bus
+    top.comb += [bus.cyc.eq(req), bus.stb.eq(req), bus.we.eq(1), bus.adr.eq(0), bus.dat_w.eq(data), bus.sel.eq(0xf)]
+    frag = top.get_fragment()
+    tri = [x for x in frag.specials if isinstance(x, Tristate)]
+    assert len(tri) == 2
+    for t in tri:
+        frag.specials.remove(t)
+        ext = sl if t.oe is dut.sda_t.oe else Constant(1)
+        frag.comb += [t.i.eq(Mux(t.oe, t.o, ext)), t.target.eq(Mux(t.oe, t.o, ext))]
+    outs = [bus.ack, dut.scl_t.oe, dut.sda_t.oe, dut.i2c.data, dut.i2c.ack, dut.i2c.idle]
+    return frag, [req, data, sl, ghost], outs
+
+
+class I2cHint:
+    """speculation hint for the I2C master: mirrors the hold rule of the Wishbone write and the
+    slave's SDA rule of I2c.tla (a level that breaks it leads to the dead context).
+    ctx = (wb, cmd, pscl, done) with cmd = None or (kind, d, a, r)"""
+    DEAD = "dead"
+
+    def init(self, cfg):
+        return (None, None, 1, 2)
+
+    def allowed(self, cfg, ctx, iv):
+        if ctx == self.DEAD:
+            return False
+        wb, cmd, pscl, done = ctx
+        if wb is not None:
+            return iv[0] == 1 and (iv[1], iv[3]) == wb
+        if iv[0] == 0:
+            return iv[1] == 0 and iv[3] == 0
+        if cmd is None:
+            return done >= 1
+        return cfg["early"] == 1 and cmd[0] == "write" and iv[1] == 1024 + cfg["bytes"][0] and iv[3] == 1
+
+    def next(self, cfg, ctx, iv, o):
+        wb, cmd, pscl, done = ctx
+        scl = 1 - o[1]
+        lvl = 1
+        if cmd is not None:
+            kind, d, a, r = cmd
+            r2 = r + (1 if scl == 1 and pscl == 0 else 0)
+            if kind == "write":
+                if (r2 == 8 and scl == 0) or (r2 == 9 and scl == 1):
+                    lvl = a
+            elif kind == "read":
+                k = r2 + 1 if scl == 0 else r2
+                if 1 <= k <= 8:
+                    lvl = (d >> (8 - k)) & 1
+            cmd = (kind, d, a, min(r2, 10))
+        if iv[2] != lvl:
+            return self.DEAD
+        issue = wb is not None and o[0] == 1 and cmd is None
+        finish = cmd is not None and o[5] == 1
+        if issue:
+            w, g = wb
+            kind = "start" if w & 2048 else "stop" if w & 4096 else "write" if w & 1024 else "read"
+            ncmd = (kind, cfg["sbytes"][g - 1] if kind == "read" else w & 255,
+                    g - 1 if kind == "write" else (w >> 8) & 1, 0)
+        elif cmd is None or finish:
+            ncmd = None
+        else:
+            ncmd = cmd
+        nwb = (None if o[0] == 1 else wb) if wb is not None else ((iv[1], iv[3]) if iv[0] == 1 else None)
+        ndone = 0 if (cmd is not None or issue) else min(done + 1, 2)
+        return (nwb, ncmd, scl, ndone)
+
+
 MAKERS = {"timer": _timer, "wdt": _wdt, "wait": _wait, "tline": _tline, "pwm": _pwm,
-          "uarttx": _uarttx, "uartrx": _uartrx}
+          "uarttx": _uarttx, "uartrx": _uartrx, "spim": _spim, "spis": _spis, "i2c": _i2c}
 
 
 def make(spec):
@@ -278,14 +494,111 @@ def uart_configs(tier):
         c.add({"core": "uartrx", "pn": n, "pd": 1, "rs": rs, "t": "%d/%d" % (tn, td), "nb": len(bytes_), "np": len(phis)},
               kind="rx", pn=n, pd=1, rs=rs, tn=tn, td=td, phis=phis, bytes=bytes_, brk=brk, **kw)
     B6 = [0x00, 0xff, 0x55, 0xaa, 0x01, 0x80]
-    import os
-    for n in [int(x) for x in os.environ.get("RXN", "4,5,6,8").split(",")]:
-        rx(n, 0 if n & (n - 1) == 0 else 1, n, 1, [0], B6)
     from math import gcd
-    for n in [int(x) for x in os.environ.get("RXM", "").split(",") if x]:
+
+    def rxm(n, pct, bytes_, step=1, **kw):
+        tn, td = n * pct, 100
+        g = gcd(tn, td)
+        tn, td = tn // g, td // g
+        rx(n, 0 if n & (n - 1) == 0 else 1, tn, td, list(range(0, td, step)), bytes_, **kw)
+    # exact rate: the sampling scheme (two-stage synchroniser + edge detect = 3 cycles after the start
+    # edge, then half a bit) needs n >= 4; with +-2 % mismatch and any phase it needs n >= 8
+    for n in ([4, 5, 8] if q else [4, 5, 6, 7, 8, 11, 16]):
+        rx(n, 0 if n & (n - 1) == 0 else 1, n, 1, [0], B6, live=1 if n == 4 else 0)
+    if q:
+        rxm(8, 98, B6[:4], step=5, grp="rxm")
+        rxm(8, 102, B6[:4], step=5, grp="rxm")
+    else:
         for pct in (98, 102):
-            tn, td = n * pct, 100
-            g = gcd(tn, td)
-            tn, td = tn // g, td // g
-            rx(n, 0 if n & (n - 1) == 0 else 1, tn, td, list(range(td)), B6[:4], grp="rx%d" % n)
+            rxm(8, pct, B6, grp="rxm8")
+            rxm(10, pct, B6, grp="rxm10")
+            rxm(16, pct, B6[:4], grp="rxm16")
+        rxm(8, 99, B6[:4], grp="rxm8b")
+        rxm(8, 101, B6[:4], grp="rxm8b")
+    return c.L
+
+
+def spim_configs(tier):
+    c = _Cfgs()
+    q = tier == "quick"
+    ALLW = list(range(16))
+    W3 = (0b1010, 0b0110, 0b0001)
+
+    def spim(div, mode="raw", loop=0, idle=0, lens=(1, 2, 3, 4), words=W3, csopts=((1, 0),),
+             overlap=1, dw=4, pu=0, **kw):
+        spec = {"core": "spim", "dw": dw, "div": div, "mode": mode, "loop": loop, "pu": pu,
+                "scen": "%s/%s/%s/%d/%d" % (list(lens), len(words), [list(x) for x in csopts], overlap, idle)}
+        c.add(spec, kind="spim", dw=dw, mode=mode, loop=loop, idle=idle, lens=list(lens), words=list(words),
+              csopts=[list(x) for x in csopts], overlap=overlap, pu=pu, **kw)
+    spim(2, lens=(2,), words=(0b1010,), overlap=0, pu=1, canary=1, wit=["transfer completed"])
+    WB = ["transfer completed", "back-to-back start", "mixed miso bits read back"]
+    X3 = (0b101, 0b011, 0b100)
+    # known findings, judged on tiny scenarios: cs_n low in the first cycle; a start with another length
+    # written during a transfer
+    spim(2, lens=(2,), words=(0b1010,), overlap=0, pu=1, canary=1, wit=["transfer completed"])
+    spim(2, lens=(1, 3), words=(0b101,), overlap=2, dw=3, canary=1, wit=["start during a transfer"])
+    # manual chip select, loopback, (quick: data width 3)
+    spim(3, "raw", words=(0b10, 0b01), lens=(1, 2), csopts=((1, 0), (1, 1), (0, 0)), overlap=0, dw=2, grp="m",
+         wit=WB + ["transfer under manual chip select"])
+    spim(3, "aligned", words=X3[:2], lens=(1, 2, 3), dw=3, loop=1, overlap=0, wit=WB, live=1)
+    spim(2, "raw", words=X3, lens=(1, 2, 3), dw=3)
+    spim(3, "aligned", words=X3, lens=(1, 2, 3), dw=3, idle=1)
+    if q:
+        spim(2, "aligned", words=(0b1010, 0b0110), grp="w4")
+    else:
+        spim(2, "aligned", words=X3, lens=(1, 2, 3), dw=3, idle=1)
+        spim(3, "raw", words=X3, lens=(1, 2, 3), dw=3)
+        spim(4, "raw", words=X3, lens=(1, 2, 3), dw=3, live=1)
+        spim(5, "aligned", words=X3, lens=(1, 2, 3), dw=3, live=1)
+        spim(2, "raw", words=X3[:2], lens=(1, 2, 3), csopts=((1, 0), (1, 1), (0, 0), (0, 1)), overlap=1, dw=3, grp="m3",
+             wit=WB + ["transfer under manual chip select", "start during a transfer"])
+        for div in (2, 3, 4, 5):
+            spim(div, "raw", grp="w4r%d" % div)
+            spim(div, "aligned", idle=div % 2, grp="w4a%d" % div)
+        spim(3, "raw", words=ALLW, lens=(4,), overlap=0, grp="all", wit=WB)
+        spim(2, "aligned", words=ALLW, lens=(3,), overlap=0, grp="all", wit=WB)
+        spim(4, "raw", words=(0b1010, 0b0110), loop=1, grp="loop")
+    return c.L
+
+
+def spis_configs(tier):
+    c = _Cfgs()
+    q = tier == "quick"
+    import os
+
+    def spis(h, gap, dw=4, lens=(1, 2, 3, 4), words=(0b1010, 0b0110, 0b1111), txws=(0b1001, 0b0110), **kw):
+        c.add({"core": "spis", "dw": dw, "h": h, "gap": gap, "scen": "%s/%d/%d" % (list(lens), len(words), len(txws))},
+              kind="spis", dw=dw, h=h, gap=gap, lens=list(lens), words=list(words), txws=list(txws), **kw)
+    # the slave needs 3 cycles from a pin edge to its reaction (2-stage synchroniser + edge detect): half
+    # periods below 4 sys cycles cannot work by design and are not claimed
+    if q:
+        spis(4, 3, words=(0b1010, 0b0110), live=1)
+    else:
+        spis(4, 3, live=1)
+        spis(5, 3, words=(0b1010, 0b0101, 0b1000, 0b0001, 0b1111, 0b0000), txws=(0b1001, 0b0110, 0b1111, 0b0000))
+        spis(6, 4)
+        spis(4, 3, dw=3, lens=(1, 2, 3), words=tuple(range(8)), txws=(0b101, 0b010, 0b110))
+        spis(4, 3, dw=2, lens=(1, 2, 3, 4), words=(0b10, 0b01), txws=(0b10, 0b01), wit=["transfer reported", "transfer after the minimum gap"])
+    return c.L
+
+
+def i2c_configs(tier):
+    c = _Cfgs()
+    q = tier == "quick"
+    import os
+    ALLC = ["start", "stop", "write", "read"]
+
+    def i2c(load, cmds=ALLC, bytes_=(0xa5, 0x00), sbytes=(0x5a, 0xff), early=0, **kw):
+        c.add({"core": "i2c", "load": load, "scen": "%s/%d/%d/%d" % ("".join(x[0] + x[2] for x in cmds), len(bytes_), len(sbytes), early)},
+              kind="i2c", load=load, cmds=list(cmds), bytes=list(bytes_), sbytes=list(sbytes), early=early, **kw)
+    # load = 0 (SCL toggling every cycle) cannot work by design: the pad logic changes SDA only after
+    # SCL has been stable for a cycle; not claimed
+    i2c(1, early=1, cmds=["start", "write"], bytes_=(0xa5,), canary=1, wit=["command written while busy"])
+    if q:
+        i2c(1, live=1)
+    else:
+        i2c(1, bytes_=(0xa5, 0x00, 0xff, 0x81), sbytes=(0x5a, 0xff, 0x00, 0x7e), live=1)
+        i2c(2, live=1)
+        i2c(3, bytes_=(0x5a, 0xff), sbytes=(0xa5, 0x01))
+        i2c(5, bytes_=(0x3c,), sbytes=(0xc3,))
     return c.L
